@@ -18,6 +18,7 @@ import (
 	"verifharness/benc"
 	"verifharness/evid"
 	"verifharness/gen"
+	"verifharness/ref"
 	"verifharness/simnet"
 	"verifharness/srv"
 )
@@ -257,3 +258,5 @@ func c13expiry(c *evid.Ctx) {
 		}
 	}
 }
+
+func refSHA1(b []byte) [20]byte { return ref.SHA1(b) }
